@@ -34,6 +34,7 @@ class Models:
     def __init__(self, facts):
         self.facts = facts
         self.table = {}
+        self.last_class_set = None
         self.register()
 
     # ------------------------------------------------------------------ helpers
@@ -635,9 +636,19 @@ class Models:
             s = M.as_slice(c.I, c.st, c.args[0])
             n = M.as_slice(c.I, c.st, c.args[1])
             out = []
-            # true implies len(s) >= len(needle) (and equal content, not tracked here)
+            nb = M.const_bytes(n)
+            if nb is not None and len(nb) <= 6 and s.elem[0] == 'bytes':
+                # exact case split: too short | first differing position | all equal
+                for s2 in c.I.assume(c.st.copy(), ('cmp', 'lt', s.len, n.len), True):
+                    out.append((s2, VBool(False)))
+                for s2 in c.I.assume(c.st.copy(), ('cmp', 'ge', s.len, n.len), True):
+                    out.extend(M.bytewise_outcomes(c.I, s2, s, nb, exact=True))
+                return out
             for s2 in c.I.assume(c.st.copy(), ('cmp', 'ge', s.len, n.len), True):
-                M.note_prefix(c.I, s2, s, n, exact=True)
+                try:
+                    M.note_prefix(c.I, s2, s, n, exact=True)
+                except Infeasible:
+                    continue
                 out.append((s2, VBool(True)))
             out.append((c.st.copy(), VBool(False)))
             return out
@@ -646,11 +657,7 @@ class Models:
         def seqic(c):
             a = M.as_slice(c.I, c.st, c.args[0])
             b = M.as_slice(c.I, c.st, c.args[1])
-            out = []
-            for s2 in c.I.assume(c.st.copy(), ('cmp', 'eq', a.len, b.len), True):
-                out.append((s2, VBool(True)))
-            out.append((c.st.copy(), VBool(False)))
-            return out
+            return M.compare_with_const(c, a, b, exact=False)
 
         @reg('core::slice::<impl [T]>::binary_search')
         def bsearch(c):
@@ -782,9 +789,14 @@ class Models:
                         o2.extend(c.I.assume(s2, ('cmp', 'le', n.form, cap.form), True))
                     outs = o2
                 # element class of the counted prefix: the predicate held for all of them
+                M.last_class_set = None
                 cls = M.closure_byte_class(c.I, st, f)
                 sym = n.form.terms[0][0]
-                SYMTAB.syms[sym].data = ('count', sl.base, sl.off.key(), cls)
+                capv = None
+                if cap is not None and isinstance(cap, VInt):
+                    cl_, ch_ = st.num.rng(cap.form)
+                    capv = cl_ if cl_ == ch_ else None
+                SYMTAB.syms[sym].data = ('count', sl.base, sl.off.key(), cls, M.last_class_set, capv)
                 return [(s2, n) for s2 in outs]
             raise AnalysisIncomplete("count on unknown iterator")
 
@@ -1067,8 +1079,90 @@ class Models:
             return e[1]
         return I.slice_elem(st, sl, idx)
 
+    def pin_byte(self, I, st, sl, i, values):
+        """constrain byte i of a byte slice to a set of values (interval hull + exclusions)"""
+        if sl.elem[0] != 'bytes':
+            return
+        e = I.slice_elem(st, sl, Form.const(i))
+        if not isinstance(e, VInt) or len(e.form.terms) != 1:
+            return
+        sym = e.form.terms[0][0]
+        vs = sorted(set(values))
+        st.num.set_lo(sym, vs[0])
+        st.num.set_hi(sym, vs[-1])
+        for x in range(vs[0] + 1, vs[-1]):
+            if x not in vs:
+                st.num.exclude(sym, x)
+
+    def alts_of(self, b, exact):
+        alts = {b}
+        if not exact:
+            if 65 <= b <= 90:
+                alts.add(b + 32)
+            elif 97 <= b <= 122:
+                alts.add(b - 32)
+        return alts
+
+    def bytewise_outcomes(self, I, st, s, nb, exact):
+        """exact partition of `s[..len(nb)] equals nb` (optionally ignoring ASCII case): one False outcome per first
+        differing position, one True outcome with every byte pinned"""
+        out = []
+        for i in range(len(nb)):
+            s2 = st.copy()
+            try:
+                for j in range(i):
+                    self.pin_byte(I, s2, s, j, self.alts_of(nb[j], exact))
+                e = I.slice_elem(s2, s, Form.const(j + 1 if False else i))
+                sym = e.form.terms[0][0]
+                for v in self.alts_of(nb[i], exact):
+                    s2.num.exclude(sym, v)
+                out.append((s2, VBool(False)))
+            except Infeasible:
+                pass
+        s3 = st.copy()
+        try:
+            for j in range(len(nb)):
+                self.pin_byte(I, s3, s, j, self.alts_of(nb[j], exact))
+            out.append((s3, VBool(True)))
+        except Infeasible:
+            pass
+        return out
+
+    def compare_with_const(self, c, a, b, exact):
+        """a == b for byte slices where one side is constant text"""
+        out = []
+        cb, other = self.const_bytes(b), a
+        if cb is None:
+            cb, other = self.const_bytes(a), b
+        if cb is not None and len(cb) <= 6 and other is not None and other.elem[0] == 'bytes':
+            for s2 in c.I.assume(c.st.copy(), ('cmp', 'ne', a.len, b.len), True):
+                out.append((s2, VBool(False)))
+            for s2 in c.I.assume(c.st.copy(), ('cmp', 'eq', a.len, b.len), True):
+                out.extend(self.bytewise_outcomes(c.I, s2, other, cb, exact))
+            return out
+        for s2 in c.I.assume(c.st.copy(), ('cmp', 'eq', a.len, b.len), True):
+            out.append((s2, VBool(True)))
+        out.append((c.st.copy(), VBool(False)))
+        return out
+
+    def const_bytes(self, sl):
+        if sl is not None and sl.elem[0] == 'cbytes' and sl.off.is_const() and sl.len.is_const():
+            return sl.elem[1][sl.off.c:sl.off.c + sl.len.c]
+        return None
+
     def note_prefix(self, I, st, s, n, exact):
-        pass
+        """s starts with n (exactly, or ignoring ASCII case): pin the bytes of s when n is constant text"""
+        nb = self.const_bytes(n)
+        if nb is None or len(nb) > 8:
+            return
+        for i, b in enumerate(nb):
+            alts = {b}
+            if not exact:
+                if 65 <= b <= 90:
+                    alts.add(b + 32)
+                elif 97 <= b <= 122:
+                    alts.add(b - 32)
+            self.pin_byte(I, st, s, i, alts)
 
     def closure_byte_class(self, I, st, f):
         """(lo, hi) hull of the bytes for which the predicate closure can return true, or None"""
@@ -1099,6 +1193,7 @@ class Models:
         except AnalysisIncomplete:
             return None
         lo, hi = 255, 0
+        exact = set()
         for (s2, r) in outs:
             if not isinstance(r, VBool):
                 return None
@@ -1106,12 +1201,19 @@ class Models:
                 continue
             cands = [s2]
             if r.val is None:
-                cands = I.assume(s2, r.pred, True) if r.pred else [s2]
+                p = I.bool_pred(r)
+                cands = I.assume(s2, p, True) if p else [s2]
             for s3 in cands:
                 a, c = s3.num.rng(b.form)
                 lo, hi = min(lo, a), max(hi, c)
+                if exact is not None and c - a <= 16:
+                    ex = s3.num.neq.get(b.form.terms[0][0], frozenset())
+                    exact |= {x for x in range(a, c + 1) if x not in ex}
+                else:
+                    exact = None
         if lo > hi:
             return (0, 0)
+        self.last_class_set = frozenset(exact) if exact is not None else None
         return (max(lo, 0), min(hi, 255))
 
 
